@@ -827,3 +827,10 @@ func vpTreeSpec(tag, path string, depth int) {
 		}
 	}
 }
+
+// os.SameFile over model file infos: the same inode (hard links share the node).
+func vpSameFile(a, b os.FileInfo) bool {
+	x, ok1 := a.(vpFileInfo)
+	y, ok2 := b.(vpFileInfo)
+	return ok1 && ok2 && x.node == y.node
+}
